@@ -52,6 +52,8 @@ type Script struct {
 	Dev map[string]Dev `json:"dev,omitempty"`
 	// Variant: step -> which success variant to use (0 = plain)
 	Variant map[string]int `json:"variant,omitempty"`
+	// TLS12 caps the TLS version at 1.2 (the record layer then reports data and close_notify from one Read)
+	TLS12 bool `json:"tls12,omitempty"`
 	// ExtraWait makes the peer check, before each reply, whether the client already sent more (ordering oracle)
 	CheckEarly bool `json:"check_early,omitempty"`
 }
@@ -337,7 +339,11 @@ func (c *Conn) Negotiate(s *Script, timeout time.Duration) *Outcome {
 						continue
 					}
 				}
-				if err := c.StartTLS(ServerTLSConfig(s.Cert, s.domain())); err != nil {
+				tcfg := ServerTLSConfig(s.Cert, s.domain())
+				if s.TLS12 {
+					tcfg.MaxVersion = tls.VersionTLS12
+				}
+				if err := c.StartTLS(tcfg); err != nil {
 					// the client refused the certificate (or failed otherwise): keep reading clear text? the socket is unusable
 					out.FaultAt = "tls"
 					faulted = true
